@@ -624,6 +624,7 @@ struct Exec {
         res.nontrivial = any_adversarial || faults_fired;
         res.count(std::string("knob.cpu_disable=") + cpu_mask_name((unsigned) plan.pk.at("cpu_disable").u64()));
         res.count("knob.source=" + plan.pk.at("source").str());
+        if (plan.pk.at("source").str() == "scripted") res.count("knob.optional_callbacks_absent=" + std::to_string(plan.pk.at("impl_shape").u64()));
         if (plan.pk.at("source").str().find("devurandom") != std::string::npos) res.count("knob.dev_urandom=" + std::string(plan.pk.at("urandom").u64() == 0 ? "present" : plan.pk.at("urandom").u64() == 1 ? "missing" : "not-a-device"));
         return res;
     }
@@ -657,6 +658,7 @@ struct C18 {
         unsigned c2 = (unsigned) r.below(100);
         (void) c;
         pk["urandom"] = (unsigned) (r.below(3) == 0 ? r.range(1, 2) : 0); // only matters for the *_devurandom sources
+        pk["impl_shape"] = (unsigned) (r.chance(1, 2) ? 0 : r.range(1, 3)); // scripted source: which optional callbacks (stir, close) the installed implementation leaves NULL
         pk["source"] = c2 < 50 ? "scripted" : c2 < 68 ? "kernel_getrandom" : c2 < 82 ? "kernel_devurandom" : c2 < 92 ? "internal_getentropy" : "internal_devurandom";
         return pk;
     }
@@ -677,7 +679,7 @@ struct C18 {
         simos_hooks.arc4random_ = h_arc4random; simos_hooks.arc4random_buf_ = h_arc4random_buf; simos_hooks.rand_ = h_rand; simos_hooks.random_ = h_random;
         g_src.reset(0xb007);
         AMB.reset(7);
-        if (!g_kernel_mode) randombytes_set_implementation(scripted_impl());
+        if (!g_kernel_mode) randombytes_set_implementation(scripted_impl((unsigned) pk.at("impl_shape").u64()));
         if (g_internal) randombytes_set_implementation(&randombytes_internal_implementation);
         LibScope l;
         if (sodium_init() < 0) { fprintf(stderr, "sodium_init failed\n"); _exit(3); }
@@ -842,6 +844,7 @@ struct C18 {
     static std::vector<Plan> simplify(const Plan &p) {
         std::vector<Plan> out;
         if (p.pk.at("cpu_disable").u64() != 0) { Plan c = p; c.pk["cpu_disable"] = 0u; out.push_back(c); }
+        if (p.pk.at("impl_shape").u64() != 0) { Plan c = p; c.pk["impl_shape"] = 0u; out.push_back(c); }
         if (p.kfault_pct) { Plan c = p; c.kfault_pct = 0; out.push_back(c); }
         if (p.flip_op >= 0) { Plan c = p; c.flip_op = -1; out.push_back(c); }
         for (size_t i = 0; i < p.ops.size(); i++) {
